@@ -267,12 +267,13 @@ _FIELD_SCHEMAS: Dict[Any, Any] = {}
 
 
 def _field_schema(d):
-    s = _FIELD_SCHEMAS.get(d)
+    key = repr(d)          # not d itself: (True,) == (1,) in Python
+    s = _FIELD_SCHEMAS.get(key)
     if s is None:
         from metador_core.schema.core import MetadataSchema
         _env()
         s = type("F", (MetadataSchema,), {"__annotations__": {"x": to_py(d)}, "__module__": __name__})
-        _FIELD_SCHEMAS[d] = s
+        _FIELD_SCHEMAS[key] = s
     return s
 
 
@@ -340,8 +341,14 @@ def build_classes(spec):
 def _parses(cls, raw) -> Tuple[bool, Any]:
     try:
         return True, cls.parse_raw(raw)
-    except Exception:  # noqa: BLE001
-        return False, None
+    except Exception as e:  # noqa: BLE001
+        cause = None
+        try:
+            errs = e.errors()
+            cause = ["extra" if errs[0]["type"] == "value_error.extra" else "field", str(errs[0]["loc"][-1] if errs[0]["type"] == "value_error.extra" else errs[0]["loc"][1] if len(errs[0]["loc"]) > 1 else errs[0]["loc"][0])]
+        except Exception:  # noqa: BLE001
+            pass
+        return False, cause
 
 
 def impl_class_case(spec) -> Dict[str, Any]:
@@ -351,13 +358,13 @@ def impl_class_case(spec) -> Dict[str, Any]:
         raw = json.dumps(obj)
         p_ok, _ = _parses(P, raw)
         if C is None:
-            rows.append([None, p_ok, None])
+            rows.append([None, p_ok, None, None])
             continue
         c_ok, inst = _parses(C, raw)
-        p_dump = None
+        p_dump, cause = None, None
         if c_ok:
-            p_dump, _ = _parses(P, bytes(inst))
-        rows.append([c_ok, p_ok, p_dump])
+            p_dump, cause = _parses(P, bytes(inst))
+        rows.append([c_ok, p_ok, p_dump, cause if p_dump is False else None])
     return {"status": status, "why": why, "rows": rows}
 
 
@@ -404,7 +411,7 @@ _SKIP = _Skip()
 
 def _sample(hint, rng, depth):
     import typing as T
-    from metador_core.schema.core import MetadataSchema
+    from pydantic import BaseModel
     from metador_core.util import typing as mtt
     if mtt.is_annotated(hint):
         return _sample(mtt.get_args(hint)[0], rng, depth)
@@ -415,13 +422,22 @@ def _sample(hint, rng, depth):
     if mtt.is_union(hint):
         args = [a for a in mtt.get_args(hint) if a is not type(None)]
         rng.shuffle(args)
+        refs = [a for a in args if getattr(a, "__name__", "") == "LDIdRef"]
+        if refs and rng.random() < 0.6:
+            args = refs + [a for a in args if a not in refs]
         for a in args:
             v = _sample(a, rng, depth)
             if v is not _SKIP:
                 return v
         return _SKIP
+    if getattr(hint, "__origin__", None) is tuple:
+        out = [_sample(a, rng, depth) for a in mtt.get_args(hint) if a is not Ellipsis]
+        return _SKIP if any(v is _SKIP for v in out) else out
     if mtt.is_list(hint) or mtt.is_set(hint):
         n = rng.randint(0, 2) if mtt.is_list(hint) else rng.randint(0, 1)
+        if mtt.is_set(hint) and any(isinstance(t, type) and issubclass(t, BaseModel)
+                                    for t in mtt.traverse_typehint(hint)):
+            n = 0      # model instances are unhashable: only the empty set validates
         out = []
         for _ in range(n):
             v = _sample(mtt.get_args(hint)[0], rng, depth)
@@ -429,22 +445,24 @@ def _sample(hint, rng, depth):
                 return []
             out.append(v)
         return out
-    if isinstance(hint, type) and issubclass(hint, MetadataSchema):
+    if isinstance(hint, type) and issubclass(hint, BaseModel):
         if depth <= 0:
             return _SKIP
-        return _sample_schema(hint, rng, depth - 1)
+        return _sample_schema(hint, rng, depth - 1, nested=True)
     if hint is T.Any:
         return rng.choice([1, "x", None])
     return _sample_atom(hint, rng)
 
 
-def _sample_schema(cls, rng, depth):
-    hints = cls._typehints
+def _sample_schema(cls, rng, depth, nested=False):
+    import typing as T
+    hints = getattr(cls, "_typehints", None) or T.get_type_hints(cls, include_extras=True)
+    consts = getattr(cls, "__constants__", {})
     out = {}
     for name, fld in cls.__fields__.items():
-        if name in cls.__constants__ or name not in hints:
+        if name in consts or name not in hints:
             continue
-        if not fld.required and rng.random() < 0.45:
+        if not fld.required and rng.random() < (0.85 if nested else 0.45):
             continue
         v = _sample(hints[name], rng, depth)
         if v is _SKIP:
@@ -557,6 +575,29 @@ OBJ_VALUES = ["<absent>", None, 1, True, "a", " ", " a ", 1.5, "a/b", "ff", [], 
               {"a": 1, "b": "x"}, {"q": "x"}, [{"a": 1}], 2, "b", ["a/b"], [{"a": 1, "b": "x"}]]
 
 
+def good_value(d, rng):
+    """a value a field of type d plausibly accepts"""
+    k = d[0]
+    if k == "any":
+        return rng.choice([1, "x"])
+    if k == "none":
+        return None
+    if k == "prim":
+        return {"int": rng.choice([1, 2]), "float": 1.5, "bool": True, "str": rng.choice(["a", " a ", "b"])}[d[2]]
+    if k == "ph":
+        return {"NE": rng.choice(["a", "a/b"]), "Mime": "a/b", "Hash": "ff", "QHash": "sha256:ff"}[d[1]]
+    if k == "lit":
+        return rng.choice(list(d[1]))
+    if k == "union":
+        return good_value(rng.choice(list(d[1])), rng)
+    if k in ("list", "set"):
+        return [good_value(d[1], rng) for _ in range(rng.choice([0, 1, 1, 2] if k == "list" else [0, 1]))]
+    if k == "obj":
+        return {"OA": {"a": 1}, "OB": rng.choice([{"a": 1, "b": "x"}, {"a": 2}]), "OQ": {"q": "x"},
+                "OF": rng.choice([{}, {"a": 1}])}[d[1]]
+    raise ValueError(d)
+
+
 def gen_class_case(rng, idx) -> Dict[str, Any]:
     nf = rng.randint(1, 3)
     p_fields = [(f"f{i}", (rng.random() < 0.15, rng.choice(FIELD_POOL))) for i in range(nf)]
@@ -591,9 +632,17 @@ def gen_class_case(rng, idx) -> Dict[str, Any]:
     c_extra = explicit if explicit is not None else p_extra
     names = [n for n, _ in p_fields] + [n for n, _ in c_own if n not in dict(p_fields)]
     objects = []
+    child_t = dict((n, t) for n, (_a, t) in p_fields)
+    child_t.update((n, t) for n, (_a, t) in c_own)
     for _ in range(10):
         o = {}
         for n in names:
+            if rng.random() < 0.8:
+                v = good_value(child_t[n], rng)
+                if v is None and rng.random() < 0.7:
+                    continue
+                o[n] = v
+                continue
             v = rng.choice(OBJ_VALUES)
             if v != "<absent>":
                 o[n] = v
@@ -660,7 +709,7 @@ def run(ctx: vlib.Ctx):
 
     # ---- 2 (first, it closes the corpus). acceptance: every type x corpus
     types = universe(full)
-    tidx = {d: i for i, d in enumerate(types)}
+    tidx = {repr(d): i for i, d in enumerate(types)}
     values = list(CORPUS)
     chunks = [list(range(i, len(types), vlib.NPROC * 2)) for i in range(vlib.NPROC * 2)]
     acc: Dict[int, List[Tuple[bool, Any]]] = {}
@@ -710,9 +759,12 @@ def run(ctx: vlib.Ctx):
                 if kd is not None and macc[i][kd][1] != "T" and len(disagreements) < 30:
                     disagreements.append({"kind": "nf", "type": d, "value": v, "dump": json.loads(r_dump),
                                           "model_nf": False})
-    ctx.sample({"case": ["acc", "<ptable>", to_sx(types[tidx[opt(S_STR)]]), jvals[12:20]],
-                "model": macc[tidx[opt(S_STR)]][12:20]})
-    xc_acc = vlib.coq_crosscheck("c13", mcases[::7], macc[::7], "c13acc", max_cases=25)
+    ctx.sample({"case": ["acc", "<ptable>", to_sx(types[tidx[repr(opt(S_STR))]]), jvals[12:20]],
+                "model": macc[tidx[repr(opt(S_STR))]][12:20]})
+    # in-Coq evaluation needs printable atoms: same model cases restricted to the printable values
+    pjv = [j for j in jvals if vlib.coq_literal_ok(j)]
+    xcases = [["acc", pt, to_sx(d), pjv] for d in types[::7] if vlib.coq_literal_ok(to_sx(d))]
+    xc_acc = vlib.coq_crosscheck("c13", xcases, vlib.run_model("c13", xcases), "c13acc", max_cases=25)
 
     # ---- 1. is_subtype table
     hints_b = [(False, j) for j in range(len(types))]
@@ -765,15 +817,15 @@ def run(ctx: vlib.Ctx):
                 if mc[1] == "T" and len(disagreements) < 30:
                     disagreements.append({"kind": "safe_pair", "a": a_d, "b": b_d, "value": wit[0],
                                           "note": "model claims the pair is safe but the code shows a witness"})
-                if len(gaps) < 5:
+                if len(gaps) < 5 or (len(gaps) < 40 and "' '" in repr(a_d)):
                     gaps.append({"a": a_d, "b": b_d, "value": wit[0], "dump": wit[1]})
-    ctx.sample({"case": ["subrow", "<ptable>", hint_sx(False, types[tidx[opt(("lit", (" ",)))]]), b_sx[:6]],
-                "model": msub[tidx[opt(("lit", (" ",)))]][:6]})
+    ctx.sample({"case": ["subrow", "<ptable>", hint_sx(False, types[tidx[repr(opt(("lit", (" ",))))]]), b_sx[:6]],
+                "model": msub[tidx[repr(opt(("lit", (" ",))))]][:6]})
     small = [(c[:3] + [c[3][:40]], r[:40]) for c, r in zip(scases[::23], msub[::23])]
     xc_sub = vlib.coq_crosscheck("c13", [c for c, _ in small], [r for _, r in small], "c13sub", max_cases=20)
 
     # ---- 3. classes + oracle B
-    ncls = ctx.budget(400, 4000)
+    ncls = ctx.budget(400, 10000)
     specs = [gen_class_case(ctx.rng, k) for k in range(ncls)]
     ccases = [class_case_sx(s, pt) for s in specs]
     mcls = vlib.run_model("c13", ccases)
@@ -791,7 +843,7 @@ def run(ctx: vlib.Ctx):
         if real_ok != (mchk == "T") and len(disagreements) < 30:
             disagreements.append({"kind": "check_child", "spec": _jsonable(spec), "impl": got["status"],
                                   "why": got["why"], "model": mchk, "model_pinned": mpin})
-        for obj, (c_ok, p_ok, p_dump), (mc, mp) in zip(spec["objects"], got["rows"], mrows):
+        for obj, (c_ok, p_ok, p_dump, cause), (mc, mp) in zip(spec["objects"], got["rows"], mrows):
             n_rows += 1
             if p_ok != (mp == "T") and len(disagreements) < 30:
                 disagreements.append({"kind": "parent-accepts", "spec": _jsonable(spec), "object": obj,
@@ -805,10 +857,13 @@ def run(ctx: vlib.Ctx):
             # oracle B (code alone)
             if real_ok and c_ok and p_dump is False and not spec["c_declared"]:
                 if spec_in_grammar(spec):
-                    sig = {"kind": "class-oracle", "forbid": spec["p_extra"] == "forbid",
-                           "newconsts": bool(spec["c_newconsts"])}
+                    # cause as the parent's own validation error names it: an unexpected key, or a field value
+                    kind = cause[0] if cause else "unknown"
+                    sig = {"kind": "class-oracle", "cause": kind}
                     key = json.dumps(sig, sort_keys=True)
-                    if key not in cls_reported:
+                    if kind == "field" and oracle_reported:
+                        key = None      # the exhaustive type-pair oracle already reported a field-type witness
+                    if key is not None and key not in cls_reported:
                         cls_reported.add(key)
                         small_spec = shrink_class_case(spec, obj)
                         ctx.violation(
@@ -823,7 +878,7 @@ def run(ctx: vlib.Ctx):
 
     # ---- oracle C: installed schema plugins
     plugins = vlib.pmap(list_installed, [None, None], procs=2)[0]
-    per = ctx.budget(25, 200)
+    per = ctx.budget(25, 300)
     inst = vlib.pmap(w_installed, [(n, v, ctx.seed + k, per) for k, (n, v) in enumerate(plugins)])
     n_inst = sum(r["built"] for r in inst)
     n_inst_checks = sum(r["checked"] for r in inst)
@@ -838,7 +893,7 @@ def run(ctx: vlib.Ctx):
 
     # ---- the documented gap outside the property's grammar: keep a replayable witness
     if gaps:
-        g = next((x for x in gaps if "a" in x), None)
+        g = next((x for x in gaps if "a" in x and "' '" in repr(x["a"])), None) or next((x for x in gaps if "a" in x), None)
         if g is not None:
             f = ctx.write_replay({"kind": "type-oracle", "a": [False, g["a"]], "b": [False, g["b"]], "value": g["value"],
                                   "what": "outside the property's grammar (plain str / plain bool): is_subtype admits the "
@@ -864,7 +919,6 @@ def run(ctx: vlib.Ctx):
     }
     cov["coq_crosscheck"] = {"acc": xc_acc, "sub": xc_sub, "cls": xc_cls}
     cov["disagreements"] = len(disagreements)
-    cov["_dev_disagreements"] = disagreements
     ctx.assumptions += [
         "strings are ASCII; JSON object keys are distinct; floats are multiples of 0.5",
         "phantom predicates: every subclass predicate implies its ancestors' predicates and rejects blank strings "
@@ -907,12 +961,23 @@ def shrink_class_case(spec, obj):
         st, got = w_class(s)
         if st != "ok" or got["status"] != "ok" or s["c_declared"]:
             return False
-        return any(c_ok and p_dump is False for c_ok, _p, p_dump in got["rows"])
+        return any(c_ok and p_dump is False for c_ok, _p, p_dump, _c in got["rows"])
 
     cur = dict(spec)
     cur["objects"] = [obj]
     if not fails(cur):
         return cur
+    def shrink_object(cur):
+        o = dict(cur["objects"][0])
+        for k in list(o):
+            trial = dict(cur)
+            o2 = {a: b for a, b in o.items() if a != k}
+            trial["objects"] = [o2]
+            if fails(trial):
+                cur, o = trial, o2
+        return cur
+
+    cur = shrink_object(cur)
     for key in ("c_own", "p_fields", "p_consts", "c_newconsts"):
         items = list(cur[key])
         for it in list(items):
@@ -923,14 +988,7 @@ def shrink_class_case(spec, obj):
             if fails(trial):
                 cur = trial
                 items = list(cur[key])
-    o = dict(cur["objects"][0])
-    for k in list(o):
-        trial = dict(cur)
-        o2 = {a: b for a, b in o.items() if a != k}
-        trial["objects"] = [o2]
-        if fails(trial):
-            cur, o = trial, o2
-    return cur
+    return shrink_object(cur)
 
 
 def replay(rep) -> int:
@@ -960,7 +1018,7 @@ def replay(rep) -> int:
         st, got = w_class(spec)
         print(st, got)
         bad = st == "ok" and got["status"] == "ok" and not spec["c_declared"] and any(
-            c_ok and p_dump is False for c_ok, _p, p_dump in got["rows"])
+            c_ok and p_dump is False for c_ok, _p, p_dump, _c in got["rows"])
         print("still failing" if bad else "no longer failing")
         return 1 if bad else 0
     if kind == "installed":
